@@ -665,7 +665,7 @@ class LocSlice(Op):
         x, f = ins[0]
         if not f.indexed or not f.ordered or len(x) == 0:
             return None
-        if not x.index.is_monotonic_increasing or x.index.hasnans or isinstance(x.index, pd.MultiIndex):
+        if isinstance(x.index, pd.MultiIndex) or not x.index.is_monotonic_increasing or x.index.hasnans:
             return None
         if x.index.dtype.kind not in "iuf":
             return None
@@ -702,7 +702,7 @@ class LocList(Op):
         x, f = ins[0]
         if not f.indexed or not f.ordered or len(x) == 0:
             return None
-        if not x.index.is_monotonic_increasing or x.index.hasnans or isinstance(x.index, pd.MultiIndex):
+        if isinstance(x.index, pd.MultiIndex) or not x.index.is_monotonic_increasing or x.index.hasnans:
             return None
         if x.index.dtype.kind not in "iuf":
             return None
@@ -1194,7 +1194,7 @@ class MergeIndex(Op):
             return None
         if isinstance(a.index, pd.MultiIndex) or isinstance(b.index, pd.MultiIndex):
             return None
-        if a.index.dtype != b.index.dtype or a.index.hasnans or b.index.hasnans:
+        if isinstance(a.index, pd.MultiIndex) or isinstance(b.index, pd.MultiIndex) or a.index.dtype != b.index.dtype or a.index.hasnans or b.index.hasnans:
             return None
         if a.index.name != b.index.name:
             return None
@@ -1377,11 +1377,11 @@ def precondition(opname, ins, args):
         return False
     if opname == "loc_slice":
         x = vals[0]
-        if not (fl[0].indexed and fl[0].ordered) or len(x) == 0 or not x.index.is_monotonic_increasing or x.index.hasnans or x.index.dtype.kind not in "iuf":
+        if not (fl[0].indexed and fl[0].ordered) or len(x) == 0 or isinstance(x.index, pd.MultiIndex) or not x.index.is_monotonic_increasing or x.index.hasnans or x.index.dtype.kind not in "iuf":
             return False
     if opname == "loc_list":
         x = vals[0]
-        if not (fl[0].indexed and fl[0].ordered) or len(x) == 0 or not x.index.is_monotonic_increasing or x.index.hasnans or x.index.dtype.kind not in "iuf":
+        if not (fl[0].indexed and fl[0].ordered) or len(x) == 0 or isinstance(x.index, pd.MultiIndex) or not x.index.is_monotonic_increasing or x.index.hasnans or x.index.dtype.kind not in "iuf":
             return False
         if isinstance(x.index, pd.MultiIndex) or not set(args["labels"]) <= set(x.index.tolist()) or len(set(args["labels"])) != len(args["labels"]):
             return False
@@ -1398,7 +1398,7 @@ def precondition(opname, ins, args):
             return False
     if opname == "merge_index":
         a, b = vals
-        if not (fl[0].indexed and fl[1].indexed) or a.index.dtype != b.index.dtype or a.index.hasnans or b.index.hasnans or a.index.name != b.index.name:
+        if not (fl[0].indexed and fl[1].indexed) or isinstance(a.index, pd.MultiIndex) or isinstance(b.index, pd.MultiIndex) or a.index.dtype != b.index.dtype or a.index.hasnans or b.index.hasnans or a.index.name != b.index.name:
             return False
     if opname == "concat0":
         a, b = vals
